@@ -9,6 +9,7 @@ import (
 	"fmt"
 	"os"
 	"runtime"
+	"runtime/pprof"
 	"sort"
 	"sync/atomic"
 	"time"
@@ -84,7 +85,19 @@ func main() {
 	siteDump := flag.String("sitedump", "", "write 'file:line hits' for every statement site to this file (coverage report)")
 	deep := flag.Bool("deep", false, "thorough tier: worlds use wider bounds")
 	noShrink := flag.Bool("noshrink", false, "do not shrink or confirm violations (determinism self-test)")
+	memProf := flag.String("memprofile", "", "development aid: write an allocation profile (every allocation sampled) to this file at exit")
 	flag.Parse()
+	writeProf := func() {}
+	if *memProf != "" {
+		runtime.MemProfileRate = 1
+		writeProf = func() {
+			if f, err := os.Create(*memProf); err == nil {
+				pprof.Lookup("allocs").WriteTo(f, 0)
+				f.Close()
+			}
+		}
+		defer writeProf()
+	}
 
 	zsim.Deep = *deep
 	if *world == "" {
@@ -98,7 +111,9 @@ func main() {
 	go watchdog()
 
 	if *replay != "" {
-		os.Exit(doReplay(w, *world, *prop, *replay))
+		code := doReplay(w, *world, *prop, *replay)
+		writeProf()
+		os.Exit(code)
 	}
 
 	out := Output{}
@@ -339,6 +354,9 @@ func shrink(cur []uint32, run func([]uint32) *worlds.RunResult, same func(*world
 		// delete chunks
 		for size := len(cur) / 2; size >= 1; size /= 2 {
 			for start := 0; start+size <= len(cur); {
+				if time.Now().After(deadline) {
+					return cur
+				}
 				cand := append(append([]uint32{}, cur[:start]...), cur[start+size:]...)
 				if try(cand) {
 					progress = true
@@ -359,6 +377,9 @@ func shrink(cur []uint32, run func([]uint32) *worlds.RunResult, same func(*world
 				if !nz {
 					continue
 				}
+				if time.Now().After(deadline) {
+					return cur
+				}
 				cand := append([]uint32{}, cur...)
 				for i := start; i < start+size; i++ {
 					cand[i] = 0
@@ -371,6 +392,9 @@ func shrink(cur []uint32, run func([]uint32) *worlds.RunResult, same func(*world
 		// reduce single entries
 		for i := 0; i < len(cur); i++ {
 			for cur[i] > 0 {
+				if time.Now().After(deadline) {
+					return cur
+				}
 				cand := append([]uint32{}, cur...)
 				cand[i] = cur[i] / 2
 				if try(cand) {
